@@ -13,6 +13,7 @@ import (
 	"fmt"
 	"hash"
 	"os"
+	"time"
 )
 
 // Replay is one counterexample / witness vector.
@@ -221,3 +222,16 @@ func InstallRecHashes() {
 // Harnesses use it only through overlay replacements of functions whose
 // result must not matter (and the native replay runs the real function).
 func AnyInt() int { return 0 }
+
+// FireTimers lets every pending time.AfterFunc timer fire. Under the engine
+// the recorded callbacks run right here (and, with includeStopped, also the
+// callbacks of stopped timers, modelling a callback that had already started
+// when Stop was called); natively it sleeps long enough for timers armed with
+// a grace period of at most a few milliseconds to fire.
+func FireTimers(includeStopped bool) int {
+	time.Sleep(40 * time.Millisecond)
+	return 0
+}
+
+// PendingTimers is the number of armed, unfired timers (engine only; natively -1).
+func PendingTimers() int { return -1 }
